@@ -27,7 +27,7 @@ CLAIMED.update({
          'get_master_identifiers): the selection rule (declared Masters of RUNNING instances first, core instances first, lowest nick), '
          'a sole recognised Master is kept, and agreement at EVERY quiescent fixpoint for ANY number of instances (same Master, live, seen '
          'RUNNING by all, regards itself as Master). The instance and cluster models are tied to the code by a global lock-step of N real '
-         'instances (real Context/StateModes/FSM/Listener/SupervisorProxy) under generated schedules with faults, every step compared.',
+         'instances (real Context/StateModes/FSM/Listener/SupervisorProxy) under generated schedules with faults, every step compared. A free-running closed loop of real instances with fake Supervisors, commanders and conflicts (harness/c16free.py) also judges, at the end of a quiet phase, that the live mutually RUNNING instances name one Master, one of them.',
     note='Partial: convergence time under arbitrary fair asynchronous schedules is not proved (liveness); the link from "the monadic FSM step '
          'returns the current state" to the two pure fixpoint conditions is by construction of the model (selectMaster/checkMaster call the '
          'pure functions) but the stability gate is not part of the theorem; "only the Master gives job orders" is judged on the implementation '
@@ -62,7 +62,7 @@ CLAIMED.update({
          'handshake result, failure notification, failed info transfer) whose origin is ISOLATED is the identity on the instance state and emits '
          'nothing; stale handshake results are ignored; nothing is queued for an ISOLATED peer; the handshake verdict is NOT_AUTHORIZED / '
          'INCONSISTENT exactly as stated (four strategies); process state/removal/disability events from a non-admitted instance change nothing. '
-         'Tie: translator (instance table) + global lock-step with option mismatches and duplicated/stale/forged message injections.',
+         'Tie: translator (instance table) + global lock-step with option mismatches and duplicated/stale/forged message injections. The same observable (an XML-RPC leaving an instance for a peer it holds ISOLATED) is judged on a free-running closed loop of real instances (harness/c16free.py).',
     note='Partial: "refused at the handshake => marked ISOLATED, never admitted" is judged on the implementation (Lean judge: no CHECKED/RUNNING for '
          'a peer with different strategies) and by correspondence; messages already dequeued by a proxy thread at the instant of isolation are a '
          'thread race outside the model. Forged origins are only expected to be refused for instances that went through the handshake '
